@@ -88,11 +88,14 @@ def cmdConv (args : List String) : String :=
         let mid := match ArithTy.common S T with
           | .flt f => (match midF f k x with | some v => fltStr v | none => "-")
           | .int _ => "-"
+        let chk := match S, T, x with
+          | .int s, .int t, .i v => truncCheckerEvent s t N D v
+          | _, _, _ => false
         if comp then
           let r := coerceT S T k x
-          s!"compiles=1 ovf={evalBoolStr o} trunc={evalBoolStr t} lossy={evalBoolStr l} mid={mid} val={evalNumStr r.val} n1={b01 r.narrowed1} wr={b01 r.wrapped} n2={b01 r.narrowed2} n3={b01 r.narrowed3}"
+          s!"compiles=1 ovf={evalBoolStr o} trunc={evalBoolStr t} lossy={evalBoolStr l} mid={mid} val={evalNumStr r.val} n1={b01 r.narrowed1} wr={b01 r.wrapped} n2={b01 r.narrowed2} n3={b01 r.narrowed3} chk={b01 chk}"
         else
-          s!"compiles=0 ovf={evalBoolStr o} trunc={evalBoolStr t} lossy={evalBoolStr l} mid=- val=- n1=0 wr=0 n2=0 n3=0"
+          s!"compiles=0 ovf={evalBoolStr o} trunc={evalBoolStr t} lossy={evalBoolStr l} mid=- val=- n1=0 wr=0 n2=0 n3=0 chk={b01 chk}"
     | _, _, _, _, _ => "bad-op"
   | _ => "bad-op"
 
@@ -135,6 +138,8 @@ structure SweepAcc where
   nlossy : Nat := 0
   nub : Nat := 0
   firstub : Option Int := none
+  nevt : Nat := 0
+  firstevt : Option Int := none
   ncleared : Nat := 0
 
 /-- One value of the sweep.  Where the truncation pipeline is undefined (signed overflow inside the
@@ -152,7 +157,9 @@ def sweepStep (S T : IntTy) (N D : Nat) (comp : Bool) (a : SweepAcc) (x : Int) :
   let a1 := { a with n := a.n + 1, novf := a.novf + (if ob = 1 then 1 else 0),
                      ntrunc := a.ntrunc + (if tb then 1 else 0), nlossy := a.nlossy + (if lb then 1 else 0),
                      nub := a.nub + (if isub then 1 else 0),
-                     firstub := if isub && a.firstub.isNone then some x else a.firstub }
+                     firstub := if isub && a.firstub.isNone then some x else a.firstub,
+                     nevt := a.nevt + (if truncCheckerEvent S T N D x then 1 else 0),
+                     firstevt := if truncCheckerEvent S T N D x && a.firstevt.isNone then some x else a.firstevt }
   if !lb then
     if !comp then { a1 with h := fnvByte h1 0xcc, ncleared := a1.ncleared + 1 } else
     match (coerceII S T N D x).val with
@@ -170,7 +177,8 @@ def cmdSweep (args : List String) : String :=
       let comp := compiles (IntTy.common S T) N D
       let a := (List.range cnt).foldl (fun (a : SweepAcc) (i : Nat) => sweepStep S T N D comp a (S.lo + (i : Int))) {}
       let fu := match a.firstub with | some x => toString x | none => "-"
-      s!"n={a.n} hash={a.h.toNat} novf={a.novf} ntrunc={a.ntrunc} nlossy={a.nlossy} ubseen={if a.nub > 0 then 1 else 0} firstub={fu} ncleared={a.ncleared} nub={a.nub} compiles={b01 comp}"
+      let fe := match a.firstevt with | some x => toString x | none => "-"
+      s!"n={a.n} hash={a.h.toNat} novf={a.novf} ntrunc={a.ntrunc} nlossy={a.nlossy} ubseen={if a.nub > 0 then 1 else 0} firstub={fu} ncleared={a.ncleared} nub={a.nub} nevt={a.nevt} firstevt={fe} compiles={b01 comp}"
     | _, _, _, _ => "bad-op"
   | _ => "bad-op"
 
